@@ -139,6 +139,15 @@ FILL = ["", " ", ".", ", ", "\n", " see ", "CVSS", "CVSS:", "CVSS:3", "CVSS:3.",
 MIN2 = "AV:N/AC:L/Au:N/C:P/I:P/A:P"  # 26 characters
 
 
+def valid_long(rng, ver):
+    """A vector with EVERY optional metric written (the longest strings the grammar has: 75 / 117 characters)."""
+    pfx = V.rand_prefix(rng, ver)
+    m = {k: rng.choice(T.VALUES[ver][k]) for k in T.ORDER[ver]}
+    if ver == "2":
+        m["E"] = rng.choice(["POC", "ND", "POC"])
+    return V.spell(pfx, m, "shuffle" if rng.random() < 0.5 else None, rng)
+
+
 def valid(rng, ver, p=0.3):
     p_, m, s = V.rand_vector(rng, ver, p_opt=p, p_nd=0.3, shuffle=0.5)
     return s
@@ -149,9 +158,13 @@ def make_text(rng):
     kinds = set()
     for _ in range(rng.randint(0, 8)):
         r = rng.random()
-        if r < 0.40:
+        if r < 0.06:
+            ver = rng.choice("233")
+            parts.append(valid_long(rng, ver))
+            kinds.add("valid-longest-v" + ver)
+        elif r < 0.40:
             ver = rng.choice("2334")
-            parts.append(valid(rng, ver, rng.choice((0.0, 0.3, 0.8))))
+            parts.append(valid(rng, ver, rng.choice((0.0, 0.3, 0.8, 1.0))))
             kinds.add("valid-v" + ver)
         elif r < 0.46:
             parts.append(MIN2 if rng.random() < 0.5 else "/".join(m + ":" + rng.choice(T.VALUES["2"][m]) for m in T.MANDATORY["2"]))
